@@ -43,7 +43,8 @@ EXOTIC = {
     'BOOLEAN': [True, False],
     'INTEGER': [-7, 2 ** 63, -2 ** 64 - 1, 10 ** 30, 123456789012345678901234567890],
     'REAL': [1e15 + 0.5, -1234567.890625, 0.000001, 2.0 ** 40, -0.5, 1200.0, -30.0, 1e20, 100.25],
-    'STRING': ["it's", "''", "a--b", "-- x", "l1\nl2", "x\ty", "q\"q", "\u00fc\u2603", "\x00z", "a'';b", " lead", "trail ",
+    'STRING': ["it's", "''", "a--b", "-- x", "l1\nl2", "select x;\n-- remark\nreturn x;", "a\n   \t-- b", "--\n--",
+               "'''", "''''", "a''b''", "x\ty", "q\"q", "\u00fc\u2603", "\x00z", "a'';b", " lead", "trail ",
                "CREATE TABLE", "'"],
     'UNIQUE_ID': [2 ** 128 - 1, 2 ** 127, 2 ** 64, 5],
 }
@@ -125,6 +126,21 @@ def make_idgen(xtuml, kind, seed):
                 self.k += 1
                 return v
         return UserGen(), refstore.RefSequenceGen(user_sequence)
+    if kind == 'user_next':
+        seq = [v for v in range(1, 20000) if v % 5]
+        if xtuml is _FakeXtuml:
+            return None, refstore.RefSequenceGen(lambda k: seq[k])
+
+        # a generator that specialises next(): ids divisible by five are reserved and skipped
+        class SkippingGen(xtuml.IntegerGenerator):
+            peek = None         # what peek() means for such a generator is its own business: not compared
+
+            def next(self):
+                v = xtuml.IntegerGenerator.next(self)
+                while v % 5 == 0:
+                    v = xtuml.IntegerGenerator.next(self)
+                return v
+        return SkippingGen(), refstore.RefSequenceGen(lambda k: seq[k])
     if kind == 'iter':
         return itertools.count(500, 3), refstore.RefSequenceGen(lambda k: 500 + 3 * k)
     if kind == 'uuid_default':
@@ -212,7 +228,7 @@ class Gen(object):
             'schema': schema,
             'route': sw.choice(['api', 'api_str', 'text']),
             'idgen': sw.choice(['uuid', 'uuid', 'uuid_default', 'integer', 'user'] +
-                               (['iter'] if prop == 'C19' else [])),
+                               (['iter', 'user_next'] if prop == 'C19' else [])),
             'clients': sw.choice([1, 2, 3]),
             'steps': sw.randint(20, 80) if tier == 'quick' or sw.random() < 0.85 else sw.randint(80, 250),
             'spelling': sw.choice(['declared', 'random']) if prop != 'C10' else 'random',
@@ -773,7 +789,7 @@ class Gen(object):
     def op_swap_idgen(self):
         '''the id generator is a public attribute of the metamodel: replace it in mid-history'''
         self.nswap = getattr(self, 'nswap', 0) + 1
-        return {'op': 'swap_idgen', 'kind': self.rng.choice(['integer', 'user', 'iter']), 'n': self.nswap}
+        return {'op': 'swap_idgen', 'kind': self.rng.choice(['integer', 'user', 'iter', 'user_next']), 'n': self.nswap}
 
     def op_idgen(self):
         f = weighted(self.rng, [(4, 'peek'), (2, 'next'), (2, 'builtin_next'), (1, 'peek2')])
@@ -1375,7 +1391,7 @@ class Exec(object):
                 if any(len(self.ref.partners(i, h, False)) > 1 and not a['src_many']
                        for i, a in enumerate(self.ref.schema.assocs) for h in self.ref.live(a['tgt'])):
                     self.bump(self.probes, 'preloaded_overpopulated_end')
-            self.extra = {'has_peek': hasattr(self.w.gen, 'peek')}
+            self.extra = {'has_peek': callable(getattr(self.w.gen, 'peek', None))}
             self.compare_state('initial')
             for self.step, op in enumerate(case['ops']):
                 self.do(op)
@@ -1663,7 +1679,7 @@ class Exec(object):
             g, _ = make_idgen(x, op['kind'], 0)
             m.id_generator = g
             w.gen = g
-            self.extra['has_peek'] = hasattr(g, 'peek')
+            self.extra['has_peek'] = callable(getattr(g, 'peek', None))
             self.bump(self.probes, 'idgen_swapped')
             return None
         if k == 'recheck':
